@@ -99,6 +99,8 @@ def c13(tier, seed, replay=None):
                 why.append("an argument was modified")
             if o.get("covcov") != o["x"]:
                 why.append("covector is not an involution")
+            if not o.get("closed", True):
+                why.append("a vector returned by an operation of the space does not lie in that space (container type %s or space differs)" % (o.get("named") or "-"))
             if o.get("inner_yx") != o.get("inner") or not o.get("inner_real"):
                 why.append("inner product not symmetric / not real")
             if not why:
@@ -231,6 +233,15 @@ def c16(tier, seed, replay=None):
                         "comparison of shape (out ++ in order) and entries",
                 "samples": [{k: o[k] for k in ("op", "ins", "outs", "lay", "shape")} for o in (keep[0], keep[len(keep) // 2], keep[-1])],
                 "known_findings_reobserved": verdict.known_hits}
+    # the operators inside programs that recover from a failed differentiation (engine model's fault family: an inner operator call
+    # raises at some depth, the enclosing differentiated function catches it and calls the operators again): still the ground truth
+    from checks import agm
+    v2, cov2 = agm.run_agm("C16", tier, seed, [("fault", 2, None)], [("fault", 2, agm.MUT_TOP)],
+                           "fault family: grad / make_jvp / nested operators called again after a caught failure of an inner operator call", agm.ASSUME, write=False)
+    verdict.violations += v2.violations
+    for k_ in ("states", "transitions", "traces_validated_against_impl", "evaluations", "distinct_nontrivial"):
+        coverage[k_] += cov2[k_]
+    coverage["operators_after_a_caught_failure"] = {k_: cov2[k_] for k_ in ("families", "model_mutants_rejected") if k_ in cov2}
     rc = verdict.finish()
     vlib.write_evidence("C16", tier, seed, "model_checking", coverage,
                         ["the test function is a quadratic map given by fixed integer tensors; its Jacobian and Hessian are computed symbolically in Operators.tla",
